@@ -532,6 +532,14 @@ func c01ProductFamilies(thorough bool) []c01Product {
 			}})
 		}
 	}
+	// data next to static text that starts a tag inside an element whose content takes plain strings (RCDATA, and the
+	// raw-text elements with an HTML content policy): the data must not complete an end tag or a comment
+	for _, el := range []string{"iframe", "noscript", "textarea", "title"} {
+		half := el[:len(el)/2]
+		raws = append(raws, c01Product{"rawdata-" + el, [][]string{
+			{"<" + el + ">"}, {"", "x", "<", "</", "</" + half, "</" + el, "<b", "<!--", "<!", "&lt;/"}, {S}, {"", ">", el[len(el)/2:] + ">", " >", el + ">", "-->", "/" + el + ">"}, {"", "y"}, {"</" + el + ">", ""},
+		}})
+	}
 	// tag and attribute names split over text nodes by constructs that emit nothing or by a conditional
 	split := []string{"", "{{$x := 1}}", "{{if $.C}}/{{end}}", "{{if $.C}} {{end}}"}
 	nsNames, nsTail := []string{"", "cript", " title", " data-x"}, []string{"", "</script>"}
